@@ -37,7 +37,8 @@ RULE = ("cells = original object (every joint and every factor of graphs G1..G10
         "transitions = operations executed, traces = maximal histories; a cell is non-trivial when at least one "
         "derived object was created and fingerprinted")
 BOUND = {
-    "quick": "depth 3 for factors and specials, depth 3 for the joints G3 and G9 (3 variables), depth 2 for the other joints; "
+    "quick": "depth 3 for factors and specials (depth 2 for the six data factors y|x,s that repeat G1.y structurally), "
+             "depth 3 for the joints G3 and G9 (3 variables), depth 2 for the other joints; "
              "1 value catalogue (seed%3); conditioning alphabet = all non-empty subsets of the target's parameters "
              "(<=3 parameters) or singletons + full set (>=4); horizon run: 200 alternating re-conditionings of G1",
     "thorough": "depth 4 for factors with <=2 parameters and specials, depth 3 for factors with 3+ parameters and for all "
@@ -64,6 +65,7 @@ JOINTS = GR.ORDER + GR.ORDER5
 # ----------------------------------------------------------------------------------------
 # cells
 # ----------------------------------------------------------------------------------------
+QUICK_SHALLOW = {("G2", "y"), ("G5", "y2"), ("G7", "y"), ("G8", "y"), ("G9", "y"), ("G10", "y")}
 SPECIALS = ["lognormal", "lognormal-cond", "reggauss", "reggauss-cond", "reggmrf-cond", "nonneggmrf", "model-linear", "model-nonlinear"]
 
 
@@ -81,8 +83,13 @@ def cells(tier, seed):
             g = GR.GRAPHS[gid]
             for name in g.free + g.data0:
                 npar = len(g.parents[name]) + 1
-                out.append({"kind": "factor", "graph": gid, "name": name, "cat": k,
-                            "depth": 3 if (q or npar >= 3) else 4})
+                if q:
+                    # quick: the 3-parameter Gaussian data factors y|x,s with a LinearModel repeat structurally
+                    # (G1.y is kept at depth 3); the repeats are explored to depth 2 here and to depth 3 in thorough
+                    d = 2 if (npar >= 3 and (gid, name) in QUICK_SHALLOW) else 3
+                else:
+                    d = 3 if npar >= 3 else 4
+                out.append({"kind": "factor", "graph": gid, "name": name, "cat": k, "depth": d})
         for sp in SPECIALS:
             out.append({"kind": "special", "name": sp, "cat": k, "depth": 3 if q else 4})
     if q:
@@ -540,6 +547,8 @@ class Explorer:
             w.fp[-1] = f1
             self.created += 1
             self.res.count("derived:" + type(_new).__name__)
+            self.res.outcomes.add("%s:%s->%s%s" % (op[0], type(w.objs[op[1]]).__name__, type(_new).__name__,
+                                                  dict(f1).get("parameter_names", dict(f1).get("argument_names"))))
             d = fp_diff(f1, f2)
             if d is not None:
                 bad.append((len(w.objs) - 1, d, f1, f2, True))
@@ -658,7 +667,7 @@ def horizon(res, cell):
             _c = _post(**others)
             res.transitions += 1
             val = float(np.asarray(_c.logd(GR.copy_val(cur[n]))).ravel()[0])
-            key = (n, float(np.sum(cur[n])), tuple(sorted((m, float(np.sum(others[m]))) for m in others)))
+            key = (n, np.asarray(cur[n], float).tobytes(), tuple(sorted((m, np.asarray(others[m], float).tobytes()) for m in others)))
             res.evaluations += 1
             if key in first:
                 if not close(val, first[key], RT):
